@@ -182,7 +182,7 @@ def _unlimit_stack():
             pass
 
 
-def run_impl(lines, jobs=None, timeout=1800):
+def run_impl(lines, jobs=None, timeout=int(os.environ.get("VERIF_CHUNK_TIMEOUT", "600"))):
     """run lvh on input lines (parallel chunks, order preserved). Returns output lines."""
     return _run_chunks([LVH], lines, jobs, timeout, None)
 
@@ -209,8 +209,14 @@ def _run_chunks(cmd, lines, jobs, timeout, preexec):
     outs = [None] * len(procs)
 
     def work(i, p, ch):
-        o, _ = p.communicate("\n".join(ch) + "\n", timeout=timeout)
-        outs[i] = o.splitlines()
+        try:
+            o, _ = p.communicate("\n".join(ch) + "\n", timeout=timeout)
+        except subprocess.TimeoutExpired:
+            # a case that never returns (busy loop, blocked for ever): what was answered so far counts, the
+            # first unanswered case is reported as a crash of the harness
+            p.kill()
+            o, _ = p.communicate()
+        outs[i] = (o or "").splitlines()
 
     ths = [threading.Thread(target=work, args=(i, p, ch)) for i, (p, ch) in enumerate(procs)]
     for t in ths:
